@@ -70,6 +70,6 @@ if os.path.exists(am):
     except Exception: pass
 meta['what_i_ran'] = (f'tools/eval_seed_wt.py {sid}: in a scratch worktree of /repo HEAD ({WT}, removed afterwards): demo.py without and with patch.diff, the pinned suite with the patch '
                       f'(compared with BASELINE.json stable_pass), then ./check {" ".join(props)} --tier quick --src-root <worktree>' + (f' for the checks as they stood at launch ({old}) and' if old else '') + ' for the current checks')
-json.dump(meta, open(os.path.join(d, 'meta.json'), 'w'), indent=1)
+if '--probe' not in args: json.dump(meta, open(os.path.join(d, 'meta.json'), 'w'), indent=1)
 print(json.dumps({k: meta.get(k) for k in ('seed', 'confirmed', 'demo_without_patch_exit', 'demo_with_patch_exit', 'detected_by')}), 'first_run:', (meta.get('first_run') or {}).get('detected_by'), meta.get('suite_with_patch'))
 for p, v in meta.get('checks', {}).items(): print('  ', p, v['exit'], v['first'][:2])
